@@ -340,6 +340,9 @@ type Chunked struct {
 	Pieces  []stats.Hex `json:"pieces"`
 	Chunks  []int       `json:"chunks"`
 	PauseUs int         `json:"pause_us"`
+	// IdleMs > 0: the sender goes quiet for that long after its first chunk (a session that idles for
+	// seconds must still relay what comes afterwards).
+	IdleMs int `json:"idle_ms"`
 }
 
 func (c Chunked) Bytes() []byte {
@@ -373,6 +376,9 @@ func send(conn net.Conn, c Chunked) {
 			return
 		}
 		pos += n
+		if c.IdleMs > 0 && k == 1 {
+			time.Sleep(time.Duration(c.IdleMs) * time.Millisecond)
+		}
 		if c.PauseUs > 0 && k <= 30 {
 			time.Sleep(time.Duration(c.PauseUs) * time.Microsecond)
 		}
@@ -457,8 +463,9 @@ func checkRelay(c RelayCase, o *stats.Obs) error {
 	wg.Add(4)
 	go func() { defer wg.Done(); send(client, c.C2S) }()
 	go func() { defer wg.Done(); send(server, c.S2C) }()
-	go func() { defer wg.Done(); gotUp = recvN(server, len(c2s), 10*time.Second) }()
-	go func() { defer wg.Done(); gotDown = recvN(client, len(s2c), 10*time.Second) }()
+	patience := 10*time.Second + time.Duration(c.C2S.IdleMs+c.S2C.IdleMs)*time.Millisecond
+	go func() { defer wg.Done(); gotUp = recvN(server, len(c2s), patience) }()
+	go func() { defer wg.Done(); gotDown = recvN(client, len(s2c), patience) }()
 	wg.Wait()
 	close(stopPoll)
 	<-pollDone
@@ -567,5 +574,25 @@ func genRelay(t *rapid.T) RelayCase {
 var propRelay = stats.Prop(R, "relay", genRelay, checkRelay)
 
 func TestRelay(t *testing.T) { rapid.Check(t, propRelay) }
+
+// Long idle: both directions go quiet for seconds in the middle of the session.
+func genIdle(t *rapid.T) RelayCase {
+	c := RelayCase{C2S: genChunked(t, "c2s"), S2C: genChunked(t, "s2c"), Report: true}
+	for _, ch := range []*Chunked{&c.C2S, &c.S2C} {
+		for len(ch.Bytes()) < 40 {
+			ch.Pieces = append(ch.Pieces, trafficPiece(t))
+		}
+		ch.Chunks = []int{17}
+		ch.IdleMs = 5500
+		if os.Getenv("VERIF_TIER") == "thorough" {
+			ch.IdleMs = 12000
+		}
+	}
+	return c
+}
+
+var propIdle = stats.Prop(R, "long-idle", genIdle, checkRelay)
+
+func TestLongIdle(t *testing.T) { rapid.Check(t, propIdle) }
 
 func TestReplay(t *testing.T) { R.Replay(t) }
